@@ -2492,9 +2492,9 @@ impl Engine for EngineA {
     }
     fn rule(&self) -> String {
         if self.faults {
-            "seeded histories of 10-60 top-level forms on one interpreter (store operations of engine A) with 0-3 fault transactions: fault kind (8) x calling context (operand, tail, tail-if, trampoline bounce, mutual tail recursion, apply, for-each/fold-left/fold-right element, caller with post-effects) nested up to depth 2 x dynamic occurrence via sim-flip; every form is checked against the reference store model (value or error kind, host effect trace, all globals, vector alias classes). distinct = hash of the op-kind sequence; non-trivial = at least one injected fault actually fired".into()
+            "seeded histories of 10-60 top-level forms on one interpreter (store operations of engine A) with 0-3 fault transactions: fault kind (8) x calling context (17: operand, tail, tail-if, trampoline bounce, mutual tail recursion, apply, for-each/fold-left/fold-right/map element, caller with post-effects, operand of a tail call, if test, setter argument, deep non-tail recursion, cond test/clause/receiver/else, and/or operand, when/unless/begin body or test, argument of a program macro; derived-form contexts inline or as a procedure body) nested up to depth 2 x dynamic occurrence via sim-flip, storms of one failing form, faults as definition initialisers, type faults after an absorbing element, procedures applied where they are written; every form is checked against the reference store model (value or error kind, host effect trace, all globals, vector alias classes). distinct = hash of the op-kind sequence; non-trivial = at least one injected fault actually fired".into()
         } else {
-            "seeded histories of 10-60 top-level forms on one interpreter over shared integer globals, counters/accumulators/cells from generator procedures, and vectors aliased through variables, arguments, captured references, lists and other vectors; every form is checked against the reference store model (value, all globals, vector alias classes by Rc identity). distinct = hash of the op-kind sequence; non-trivial = a write was followed by a read of the same object through a different root name and by a read of a different object".into()
+            "seeded histories of 10-60 top-level forms on one interpreter over shared integer globals, counters/accumulators/cells from generator procedures, and vectors aliased through variables, arguments, captured references, lists and other vectors; counter makers over bindings made by parameters, internal defines (one evaluated late, one carrying a parameter's name), let, let* (one name bound twice), a let in operand position, and the bodies of begin/cond/when/or/and; vectors containing themselves; redefined containers and integers; writes inside derived forms; every form is checked against the reference store model (value, all globals, vector alias classes by Rc identity). distinct = hash of the op-kind sequence; non-trivial = a write was followed by a read of the same object through a different root name and by a read of a different object".into()
         }
     }
     fn assumptions(&self) -> Vec<String> {
